@@ -218,9 +218,30 @@ func verifRunScript(rt *rapid.T, k *kit.Case, s *verifSim, o verifScriptOpts) ve
 			}
 	}
 	steps := rapid.IntRange(o.steps/3, o.steps).Draw(rt, "steps")
+	// openings aimed at the first proposal of a channel (base offset 0), which
+	// recovery treats specially (an empty frontier gets no current-term barrier)
+	opening := []string{}
+	if N >= 3 && !o.preSeed {
+		switch rapid.IntRange(0, 9).Draw(rt, "opening") {
+		case 0, 1:
+			opening = []string{"divergentTail", "cleanFailover"}
+		case 2:
+			opening = []string{"isolateFollower", "commit", "heal", "cleanFailover"}
+		case 3:
+			opening = []string{"divergentTail", "crash", "failover"}
+		}
+	}
 	for step := 0; step < steps; step++ {
-		act := rapid.SampledFrom(bag).Draw(rt, "action")
+		act := ""
+		if step < len(opening) {
+			act = opening[step]
+		} else {
+			act = rapid.SampledFrom(bag).Draw(rt, "action")
+		}
 		c := rapid.IntRange(0, s.cfg.Channels-1).Draw(rt, "channel")
+		if step < len(opening) {
+			c = 0
+		}
 		switch act {
 		case "commit", "staleCommit":
 			var n *verifSimNode
@@ -481,8 +502,10 @@ func verifRunScript(rt *rapid.T, k *kit.Case, s *verifSim, o verifScriptOpts) ve
 					}
 				}
 			}
-		case "isolate":
-			n := verifDrawNode(rt, s, "isoNode", func(n *verifSimNode) bool { return s.isUp(n.id) && !isolated[n.id] })
+		case "isolate", "isolateFollower":
+			n := verifDrawNode(rt, s, "isoNode", func(n *verifSimNode) bool {
+				return s.isUp(n.id) && !isolated[n.id] && (act == "isolate" || n.id != s.control[c].Leader)
+			})
 			if n == nil || s.outSet(isolated) >= N-Q {
 				continue
 			}
